@@ -223,8 +223,7 @@ class TaskScheduler(object):
         if batch is None:
             if _debug_options.DUMP_FLUSH_BATCH:
                 debug.write("@async: no batch to flush")
-            else:
-                return None
+            return None
         self._batches.remove(batch)
         self._flush_batch(batch)
         return batch
